@@ -63,7 +63,7 @@ def run(F, rep, tier, allfacts):
     for n, i, c, args, line in cg.callers_of(r"^fuel_vm::interpreter::memory::MemoryInstance::write(_bytes)?_noownerchecks$"):
         sites[n] += 1
         where.setdefault(n, line)
-    rep.floor("WHO-noownerchecks", "call sites", sum(sites.values()), 14)
+    rep.floor("WHO-noownerchecks", "call sites", sum(sites.values()), 10)
     for n, k in sorted(sites.items()):
         rep.saw(n)
         f = cg.fns[n]
@@ -161,7 +161,7 @@ def run(F, rep, tier, allfacts):
     cfg = CFG(mf)
     ob = call_blocks(mf, r"OwnershipRegisters::verify_ownership$")
     copies = call_blocks(mf, r"(copy_within|copy_from_slice)$")
-    rep.floor("DOM-write", "copy sites in memcopy", len(copies), 4)
+    rep.floor("DOM-write", "copy sites in memcopy", len(copies), 3)
     okm = bool(ob) and all(cfg.dominates(ob[0], c) for c in copies)
     rep.check(okm, "DOM-write", "memcopy:ownership-dominates-copies", "%s:%s" % (mf["file"], mf["line"]),
               "verify_ownership must dominate every copy in memcopy")
